@@ -74,6 +74,13 @@ class Kit:
             return h.get_weight(e[0], e[1])
         return h.get_weight(e)
 
+    def meta_of(self, h, e):
+        if self.name == "TemporalHypergraph":
+            return h.get_edge_metadata(e[1], e[0])
+        if self.name == "MultiplexHypergraph":
+            return h.get_edge_metadata(e[0], e[1])
+        return h.get_edge_metadata(e)
+
     def canon_listed(self, e):
         """canonical probe of a hyperedge as listed by get_edges()"""
         if self.name == "Hypergraph":
@@ -89,8 +96,11 @@ class Kit:
         nodes = {n: dc(m) for n, m in h.get_nodes(metadata=True).items()}
         listed = list(h.get_edges())
         edges = {}
-        for e, m in h.get_edges(metadata=True).items():
-            edges[self.canon_listed(e)] = [self.weight_of(h, e), dc(m)]
+        # per-hyperedge getters on the plain listing (the bulk listing get_edges(metadata=True)
+        # is what the text saver itself reads: a fault there must show up as a round-trip
+        # difference, not as a failed premise)
+        for e in listed:
+            edges[self.canon_listed(e)] = [self.weight_of(h, e), dc(self.meta_of(h, e))]
         return {"nodes": nodes, "edges": edges, "n_listed": len(listed),
                 "listed": sorted((self.canon_listed(e) for e in listed), key=repr),
                 "weighted": h.is_weighted(), "hg": dc(h.get_hypergraph_metadata())}
@@ -535,6 +545,23 @@ class Builder:
         for spec in self.side["noise"]:
             self.noise(spec)
         self.repair()
+        # metadata emptied by a removal: every other item whose metadata is {} gets a
+        # temporary attribute that is removed again (content unchanged; a table entry dropped
+        # when its dict becomes empty would make the item vanish from a bulk listing)
+        j = 0
+        for key in sorted(self.edges, key=self.ad.sort_key):
+            if not self.edges[key][1]:
+                j += 1
+                if (j + self.rng.randrange(2)) % 2 == 0:
+                    rec = self.rec_of(key)
+                    self.do({"op": "set_attr_edge", "e": rec, "field": "tmp", "value": 1})
+                    self.do({"op": "remove_attr_edge", "e": rec, "field": "tmp"})
+        for n in self._sorted_nodes():
+            if not self.nodes[n]:
+                j += 1
+                if (j + self.rng.randrange(2)) % 2 == 0:
+                    self.do({"op": "set_attr_node", "n": n, "field": "tmp", "value": 1})
+                    self.do({"op": "remove_attr_node", "n": n, "field": "tmp"})
         if self.T.get("hg_bare"):
             # the hypergraph metadata replaced wholesale by the user's own fields: the
             # implementation-set 'weighted' and 'type' entries are gone
